@@ -86,6 +86,57 @@ def boundaries(ctx):
     return B
 
 
+def truncation_instants(ctx):
+    """Instants at which a counter of the conversion (year, day number, second count; counted from the epoch and from
+    2000-03-01) is k * 2^w + r for the usual truncation widths w = 16, 31, 32 (i16/u16/i32/u32 casts) and a small residue r:
+    a narrowing cast somewhere in the code maps such a value onto an ordinary one (year 2^32 + 2024 -> 2024).
+    Years: EVERY multiple of 2^32 and 2^31 inside the range of SystemTime (|k| <= 68 resp. 136), a sample of the 2^16 ones;
+    residues 0, 1, 1970, 2024, 9999, 10000, -1; start / middle / end of the year.  Days and seconds: a sample of k, r in -1, 0, 1.
+    -> sorted list of (sec, nsec)."""
+    rng = ctx.rng
+    th = ctx.thorough()
+    out = set()
+
+    def put(sec, nsec):
+        if I64_MIN <= sec <= I64_MAX:
+            out.add((sec, nsec))
+    YMAX = 292277026596
+    ks = {}
+    ks[32] = [k for k in range(-(YMAX >> 32) - 1, (YMAX >> 32) + 2) if k]
+    ks[31] = [k for k in range(-(YMAX >> 31) - 1, (YMAX >> 31) + 2) if k]
+    k16 = set(range(-8, 9)) | {s * 2 ** e for e in range(4, 23) for s in (-1, 1)}
+    k16 |= {rng.randint(-(YMAX >> 16), YMAX >> 16) for _ in range(60 if not th else 600)}
+    ks[16] = sorted(k for k in k16 if k)
+    for w, kl in ks.items():
+        for k in kl:
+            for r in (0, 1, 1970, 2024, 9999, 10000, -1):
+                y = k * 2 ** w + r
+                if abs(y) > YMAX + 1:
+                    continue
+                put(ts(y), 0)                                           # start of the year
+                put(ts(y, 7, 2, 12), 500_000_500)                       # middle
+                put(ts(y, 12, 31, 23, 59, 59), NS - 1)                  # end (and the next year's start follows via r+1 / r = 0, -1)
+    anchor = orc.days_from_civil(2000, 3, 1)
+    DMAX = 2 ** 63 // 86400
+    for w in (16, 31, 32):
+        kd = set(range(-8, 9)) | {s * 2 ** e for e in range(4, 48 - w) for s in (-1, 1)}
+        kd |= {rng.randint(-(DMAX >> w), DMAX >> w) for _ in range(40 if not th else 400)}
+        for k in kd:
+            for r in (-1, 0, 1):
+                for base in (0, anchor):
+                    d = k * 2 ** w + r + base
+                    put(d * 86400, 0)
+                    put(d * 86400 + 43200, 1)
+                    put(d * 86400 + 86399, NS - 1)
+        ksec = set(range(-8, 9)) | {s * 2 ** e for e in range(4, 63 - w) for s in (-1, 1)}
+        ksec |= {rng.randint(-(2 ** (63 - w)), 2 ** (63 - w)) for _ in range(40 if not th else 400)}
+        for k in ksec:
+            for r in (-1, 0, 1):
+                for base in (0, anchor * 86400):
+                    put(k * 2 ** w + r + base, rng.choice(SPECIAL_NS))
+    return sorted(out)
+
+
 class Cases:
     def __init__(self):
         self.desc = []          # (category, descriptor line, count)
@@ -179,6 +230,10 @@ def generate(ctx, rep):
             C.P(cat, sec, nsec)
             if (sec < 0 and nsec != 0) or near(sec, bs):
                 C.explicit_nontrivial.add((sec, nsec))
+    # 5b. counters at multiples of the usual truncation widths (2^16, 2^31, 2^32 years / days / seconds) + small residues
+    for sec, nsec in truncation_instants(ctx):
+        C.P("truncation-widths", sec, nsec)
+        C.explicit_nontrivial.add((sec, nsec))
     # 6. day sweeps
     if th:
         d0, d1 = orc.days_from_civil(1, 1, 1), orc.days_from_civil(9999, 12, 31)
@@ -508,10 +563,11 @@ def run(ctx):
                 "seeded-random boundaries (years, 28/29 Feb, 1 Mar, the 400/100/4-year cycle starts counted from 2000-03-01, "
                 "i32/u32 second and day limits), every day around them at three times of day, second roll-overs, both ends of "
                 "i64, pre-1970 instants with/without sub-second part, uniform and log-uniform random instants with special "
-                "sub-second values (x999, x500 rounding traps), a whole 400-year day sweep (quick) / every day 0001..9999 x 3 "
+                "sub-second values (x999, x500 rounding traps), every year k*2^32+r and k*2^31+r in range (r in 0,1,1970,2024,9999,10000,-1; start/middle/end of year) "
+                "and a sample of k*2^16 years and of day / second counts at multiples of 2^16, 2^31, 2^32 (narrowing-cast windows), a whole 400-year day sweep (quick) / every day 0001..9999 x 3 "
                 "(thorough); statelessness: each boundary day +-1 at three times of day, both ends of i64 and a random sample as the first call on a fresh "
                 "thread (16 also as the first call of a fresh process), a sample in two orders, with immediate repeats and interleaved with same-day / "
-                "400-year / 2^32-day neighbours on one thread. non-trivial = within 2 days of a listed boundary, or before 1970 with tv_nsec != 0; distinct = distinct instant")
+                "400-year / 2^32-day neighbours on one thread. non-trivial = within 2 days of a listed boundary, or before 1970 with tv_nsec != 0, or a truncation-width instant; distinct = distinct instant")
     rep.trusted_base = [
         "Coq 8.16.1 kernel + vm_compute (no native_compute)",
         "translators/time_consts.py (constants of datetime.rs) and translators/datetime_rs.py (every statement of From<SystemTime>::from and "
@@ -665,7 +721,7 @@ def coq_subset(ctx, C, B):
     sub = [(I64_MIN, 0), (I64_MIN, 1), (I64_MIN + 1, 0), (I64_MAX, 0), (I64_MAX, NS - 1), (0, 0), (-1, 1), (-1, NS - 1)]
     for b in sorted(set(B.values())):
         sub += [(b - 1, 999_999_999), (b, 0), (b + 86399, 999_500), (b - 86400, 1000)]
-    explicit = [tuple(int(x) for x in l.split()[1:]) for cat, l, _ in C.desc if l.startswith("P") and cat in ("random", "pre-1970", "corpus")]
+    explicit = [tuple(int(x) for x in l.split()[1:]) for cat, l, _ in C.desc if l.startswith("P") and cat in ("random", "pre-1970", "corpus", "truncation-widths")]
     rng.shuffle(explicit)
     sub += explicit[: (2000 if not ctx.thorough() else 8000)]
     sub = [(s, n) for s, n in dict.fromkeys(sub) if I64_MIN <= s <= I64_MAX]
